@@ -23,6 +23,8 @@ open SoupVerif
 #print axioms C12.attr_ns_eq
 #print axioms C12.attr_ns
 #print axioms C12.attr_ns_unmapped
+#print axioms C12.attr_ns_empty
+#print axioms C12.attr_ns_empty_eq_bare
 #print axioms C12.inAnyNs_iff
 #print axioms C12.attr_any_ignores_star_mapping
 #print axioms C12.attr_any
@@ -31,12 +33,15 @@ open SoupVerif
 #print axioms C12.attr_no_ns_support
 #print axioms C12.attr_no_ns_support_prefix_irrelevant
 #print axioms C12.key_text_matters_without_ns_support
+#print axioms C12.key_text_matters_for_empty_uri
 -- every designated attribute (`match_attribute_name` is a generator; repair of `[*|a op v]`)
 #print axioms SoupVerif.matchAttributeName_eq_head?
 #print axioms C12.attr_first_of_values
 #print axioms C12.doc_prefix_irrelevant_attr_values
 #print axioms C12.attr_ns_values
 #print axioms C12.attr_ns_unmapped_values
+#print axioms C12.attr_ns_empty_values
+#print axioms C12.attr_ns_empty_values_eq_bare
 #print axioms C12.attr_any_values
 #print axioms C12.attr_any_values_map_independent
 #print axioms C12.attr_bare_values
@@ -47,6 +52,8 @@ open SoupVerif
 #print axioms C12.attr_value_test
 #print axioms C12.attr_any_value_test
 #print axioms C12.attr_ns_value_test
+#print axioms C12.attr_ns_empty_value_test
+#print axioms C12.attr_ns_empty_matchAttributes_eq_bare
 #print axioms C12.attr_any_value_test_spec
 #print axioms C12.attr_any_ne_spec
 #print axioms C12.attr_any_presence_spec
@@ -74,12 +81,14 @@ open SoupVerif
 #print axioms Names.man_bare
 #print axioms Names.man_unmapped
 #print axioms Names.man_ns
+#print axioms Names.man_ns_empty
 #print axioms Names.man_star
 #print axioms Names.filter_map_pairwise₂
 #print axioms Names.mav_no_ns
 #print axioms Names.mav_bare
 #print axioms Names.mav_unmapped
 #print axioms Names.mav_ns
+#print axioms Names.mav_ns_empty
 #print axioms Names.mav_star
 
 /-! Non-vacuity: the hypotheses of the main theorems are jointly satisfiable on concrete contexts
@@ -87,7 +96,7 @@ open SoupVerif
 open C12 in
 example : matchAttributeName cxml (circle none none [plainHref, xhref "x:href" u1]) "href".toStr "svg".toStr
     = some (.str "v".toStr) := by
-  rw [attr_ns_eq cxml _ _ _ u1 (by decide) (by decide) (by decide) (by decide)]
+  rw [attr_ns_eq cxml _ _ _ u1 (by decide) (by decide) (by decide) (by decide) (by decide)]
   decide
 -- `<e x:href="v" href="w"/>` and `[*|href="w"]`: the SECOND designated attribute has the value
 -- (real soupsieve after the repair: `<e p:x="1" q:x="2"/>` is selected by `[*|x="2"]`, by
